@@ -74,10 +74,11 @@ TListAfter ==
     /\ Is("ListAfter") /\ l' = l + 1
     /\ viol' = viol \cup V(E.missing = 0, "OldDataVisible")
     /\ UNCHANGED <<rec, last, wins, maxStored, started>>
+TPanic == /\ Is("Panic") /\ l' = l + 1 /\ viol' = viol \cup V(FALSE, "NoPanic") /\ UNCHANGED <<rec, last, wins, maxStored, started>>
 TSkip == /\ l <= Len(Trace) /\ E.e \in {"Get", "IterOpen", "IterItem", "Note", "Notify", "Deal", "Committed", "CacheAdd", "Flush", "Del", "DelCur"} /\ l' = l + 1
          /\ UNCHANGED <<rec, last, wins, maxStored, started, viol>>
 
-TNext == TReset \/ TCommit \/ TGet \/ TCreate \/ TUpdate \/ TStored \/ TLeaderStart \/ TNewWrite \/ TListAfter \/ TSkip
+TNext == TPanic \/ TReset \/ TCommit \/ TGet \/ TCreate \/ TUpdate \/ TStored \/ TLeaderStart \/ TNewWrite \/ TListAfter \/ TSkip
 TSpec == TInit /\ [][TNext]_vars
 TraceAccepted == TLCGet("stats").diameter - 1 = Len(Trace)
 NoViol(name) == \A v \in viol : v[1] # name
@@ -92,4 +93,5 @@ M_NoTwoFromSameObserved == NoViol("NoTwoFromSameObserved")
 M_NewRevisionsAboveStored == NoViol("NewRevisionsAboveStored")
 M_GuardedWritesKeepWorking == NoViol("GuardedWritesKeepWorking")
 M_OldDataVisible == NoViol("OldDataVisible")
+M_NoPanic == NoViol("NoPanic")
 =============================================================================
